@@ -88,6 +88,8 @@ pub fn replay_case(prop: &str, sub: &str, case: Value) -> Result<(), String> {
         // C17 is decided by the program-generation engine; its racing sub-check lives here
         #[cfg(feature = "std")]
         "C17" if sub == "racing-repeat-use-returns" => c17::replay(sub, case),
+        #[cfg(feature = "std")]
+        "C17" if sub == "racing-single-use-leaves" => c12::replay("racing-leaves-exhaustive", case),
         // C19 is decided by the program-generation engine; its text-arguments sub-check lives here
         #[cfg(feature = "std")]
         "C19" if sub == "text-arguments" => text::replay(case, text::Oracle::Rendering),
@@ -326,6 +328,14 @@ pub fn variant_reports(ctx: &Ctx, variants: &[&str]) -> Vec<vcore::SubReport> {
 pub fn print_sub_reports(ctx: &Ctx) {
     if crate::variant() == "nostd-nomutex" {
         crate::model::NO_MUTEX.store(true, std::sync::atomic::Ordering::Relaxed);
+    }
+    #[cfg(feature = "std")]
+    if ctx.prop == "C17-leaves" {
+        // pulled by `progen C17`: single-use composites whose owned leaves sit in several cells, two racing requests
+        let mut s = c12::leaf_race_exhaustive(ctx.tier.pick(150_000, 2_000_000) as u64);
+        s.rename("racing-single-use-leaves".to_string());
+        println!("{}", serde_json::to_string(&s.to_json()).unwrap());
+        return;
     }
     #[cfg(feature = "std")]
     if ctx.prop == "C17" {
